@@ -175,8 +175,13 @@ def gen(rng, tier, shape=None):
     if rng.random() < 0.25:
         flags = []
     approved = sorted(c for c in common.CATS if rng.random() < 0.5) if rng.random() < 0.3 else list(flags)
-    return {"sites": sites, "tests": tests, "flags": flags, "approved": approved, "ncs": ncs,
+    case = {"sites": sites, "tests": tests, "flags": flags, "approved": approved, "ncs": ncs,
             "orders": ncs == 0 and rng.random() < (0.15 if tier == "quick" else 0.25)}
+    if rng.random() < 0.12:
+        # an unrelated comparison that raises (C14 / C18: nothing of it may leak into the other call sites)
+        case["disturb"] = {"kind": rng.randrange(len(DISTURB)), "test": rng.randrange(ntests), "orders": False}
+        case["orders"] = False
+    return case
 
 
 def arg_src(old):
@@ -225,6 +230,33 @@ def rec(f):
 
 OPSRC = {"eq": "{x} == {s}", "ge": "{x} <= {s}", "le": "{x} >= {s}", "in": "{x} in {s}"}
 
+# comparisons that raise, at different depths of the machinery; their snapshot() calls are written at the END of the
+# module (so the numbering of the modelled call sites is unchanged) and evaluated at the start of one test
+DISTURB = [
+    "[Item_(), 2] == snapshot([1, 2, 3])",            # raises while the lists are aligned (compare-only mode)
+    "[2, Item_()] == snapshot([1, 2])",               # raises in the element comparison of equal-length lists
+    "Item_() == snapshot(1)",                          # raises in the top-level comparison
+    "{'a': Item_()} == snapshot({'a': 1, 'b': 2})",   # raises inside a dict value
+    "5 <= snapshot('x')",                              # TypeError from the ordering
+    "Item_() in snapshot([1])",                        # raises in the membership test
+    "NC_(77) == snapshot(5)",                          # deepcopy is not equal to the original: UsageError
+    "[Item_(), 2] == snapshot([snapshot(1), 2, 3])",  # nested snapshot reached only while aligning
+    "snapshot(1)['k'] == 1",                           # wrong kind of use
+    "(Item_(), 1) == snapshot((1,))",                 # tuple alignment
+]
+DISTURB_DEF = """
+class Item_:
+    x = 1
+    def __eq__(self, other):
+        return self.x == other.x
+    def __repr__(self): return "Item_()"
+def disturb():
+    try:
+        %s
+    except Exception:
+        pass
+"""
+
 
 def fix_case(case):
     """undo what a JSON round trip does to a case (tuples become lists)"""
@@ -265,9 +297,12 @@ def render(case):
         i += 1
     events = [["snap", k, old_sx(sites[k]["old"])] for k in mod_snaps]
     boundaries = []
+    dist = case.get("disturb")
     for t, evs in enumerate(case["tests"]):
         lines.append(f"def test_{t}():")
         events.append(["begin"])
+        if dist and dist["test"] == t:
+            lines.append("    disturb()")
         for ev in evs:
             if ev[0] == "touch":
                 _, k, key = ev
@@ -284,6 +319,8 @@ def render(case):
                                ["op", k, "-" if key is None else val_sx(key), op, val_sx(x), clone_ok]])
         lines.append("")
         boundaries.append(len(events))
+    if dist:
+        lines.append(DISTURB_DEF % DISTURB[dist["kind"]])
     return "\n".join(lines) + "\n", events, boundaries
 
 
@@ -318,13 +355,18 @@ def run_impl(case):
     calls = impl_inline.snapshot_args(src)
     pos_to_site = {(ln, col): i for i, (ln, col, _a, _n) in enumerate(calls)}
     sites = {}
+    nmodel = len(case["sites"])
     for s in obs["sites"]:
         k = pos_to_site.get((s["line"], s["col"]))
+        if k is not None and k >= nmodel:
+            continue                     # call sites of the disturbance (after all modelled ones)
         sites[k] = {"cats": s["cats"], "error": s["error"]}
     finals = {}
     after = obs["files_after"].get("test_case.py", "")
     try:
         for i, (_ln, _col, a, _n) in enumerate(impl_inline.snapshot_args(after)):
+            if i >= nmodel:
+                break
             try:
                 finals[i] = py_final(a)
             except Exception as e:  # noqa: BLE001
@@ -332,10 +374,17 @@ def run_impl(case):
     except SyntaxError as e:
         finals = {"syntax_error": str(e)}
     R = obs["R"][0][1] if obs["R"] else None
+    plain = None
+    if case.get("disturb"):
+        # the same module without the raising comparison: the modelled call sites must end up exactly the same
+        c2 = dict(case)
+        c2["disturb"] = None
+        o2 = run_impl(c2)
+        plain = {"R": o2["R"], "finals": o2["finals"], "sites": o2["sites"], "errors": [o2["collect_errors"], o2["apply_error"], o2["import_error"]]}
     orders = None
     if case.get("orders") and not obs["collect_errors"] and not obs["apply_error"]:
         orders = run_orders(src, sorted({c for s_ in obs["sites"] for c in s_["cats"]}))
-    return {"orders": orders, "R": R, "tests": obs["tests"], "sites": sites, "finals": finals, "src": src, "after": after,
+    return {"plain": plain, "orders": orders, "R": R, "tests": obs["tests"], "sites": sites, "finals": finals, "src": src, "after": after,
             "collect_errors": obs["collect_errors"], "apply_error": obs["apply_error"],
             "import_error": obs["import_error"], "problems": obs["problems"]}
 
@@ -481,6 +530,23 @@ def oracle(case, obs):
     sites = case["sites"]
     R = obs["R"] or []
     ncs: dict = {}
+    if case.get("disturb") and obs.get("plain"):
+        pl = obs["plain"]
+        what = DISTURB[case["disturb"]["kind"]]
+        if obs["collect_errors"] or obs["apply_error"] or obs["import_error"]:
+            if not any(pl["errors"]):
+                fails.append(("C18", "finish_total", f"with the raising comparison `{what}` in test {case['disturb']['test']}: {obs['collect_errors'] or obs['apply_error'] or obs['import_error']}"))
+        else:
+            jn = lambda x: common.sx_parse(sx(x)) if not isinstance(x, dict) else {str(k): common.sx_parse(sx(v)) for k, v in x.items()}
+            if jn(pl["finals"]) != jn(obs["finals"]):
+                d = f"a raising comparison `{what}` in test {case['disturb']['test']} changes what other call sites hold afterwards: without it {pl['finals']}, with it {obs['finals']}"
+                fails.append(("C14", "no_leak_from_raising_comparison", d))
+                if {"create", "fix"} <= approved:
+                    fails.append(("C02", "repaired_after_earlier_failure", d))
+            elif pl["R"] != R:
+                fails.append(("C14", "no_leak_from_raising_comparison", f"a raising comparison `{what}` changes the answers of other comparisons: without it {pl['R']}, with it {R}"))
+            elif {str(k): v for k, v in pl["sites"].items()} != {str(k): v for k, v in obs["sites"].items()}:
+                fails.append(("C14", "no_leak_from_raising_comparison", f"a raising comparison `{what}` changes the categories reported for other call sites: without it {pl['sites']}, with it {obs['sites']}"))
     # flatten events in execution order with their result
     flat = []
     idx = 0
@@ -736,6 +802,8 @@ def signature(case):
 
 
 def histogram(case, obs, hist):
+    if case.get("disturb"):
+        hist["disturb:%d" % case["disturb"]["kind"]] = hist.get("disturb:%d" % case["disturb"]["kind"], 0) + 1
     hist["flags:" + ",".join(case["flags"])] = hist.get("flags:" + ",".join(case["flags"]), 0) + 1
     for s in case["sites"]:
         hist["role:" + s["role"]] = hist.get("role:" + s["role"], 0) + 1
